@@ -24,10 +24,10 @@ sys.setrecursionlimit(20000)
 # =========================================================================== values
 class SV:
     """symbolic value: kind + term tree (+ origin = where a mutable container lives)"""
-    __slots__ = ("kind", "tree", "origin", "lits")
+    __slots__ = ("kind", "tree", "origin", "lits", "meta")
 
-    def __init__(self, kind, tree, origin=None, lits=None):
-        self.kind, self.tree, self.origin, self.lits = kind, tree, origin, lits
+    def __init__(self, kind, tree, origin=None, lits=None, meta=None):
+        self.kind, self.tree, self.origin, self.lits, self.meta = kind, tree, origin, lits, meta
 
     def __repr__(self):
         return "SV(%r)" % (self.kind,)
@@ -273,6 +273,8 @@ class Interp:
     def as_any(self, v):
         """-> z3 Val term"""
         v = self.lit(v) if not isinstance(v, SV) else v
+        if v.kind.tag == "list":
+            v = self.list_as_tuple(v)
         return box(v.kind, v.tree)
 
     def coerce(self, v, kind, st=None, what="value"):
@@ -344,6 +346,8 @@ class Interp:
         if a.tag in num and b.tag in num:
             return Kind(num[max(num.index(a.tag), num.index(b.tag))])
         scal = ("bool", "int", "real", "str", "any", "tuple", "obj")
+        if (a.tag == "list" and b.tag in scal) or (b.tag == "list" and a.tag in scal):
+            return ANY      # a fixed-length list literal used as an attribute value (boxed as a tuple, A-attrlist)
         if a.tag in scal and b.tag in scal:
             if a.tag == "tuple" and b.tag == "tuple" and len(a.args) == len(b.args):
                 return TUP(*[self.join_kinds(x, y) for x, y in zip(a.args, b.args)])
@@ -764,11 +768,34 @@ class Interp:
                 if not ks:
                     yield {}, s2
                     continue
+                if all(isinstance(k, str) for k in ks) and any(not self.boxable(v) for v in vs):
+                    yield dict(zip(ks, vs)), s2        # static record (holds functions / lists): read-only use
+                    continue
                 yield self.make_dict(list(zip(ks, vs))), s2
+
+    def boxable(self, v):
+        if isinstance(v, SV):
+            return True
+        if v is None or isinstance(v, (bool, int, float, str)):
+            return True
+        if isinstance(v, (tuple, list)):
+            return all(self.boxable(x) for x in v)
+        return False
+
+    def list_as_tuple(self, v):
+        """a list value of statically known length used as an (immutable) attribute value -> tuple (A-attrlist)"""
+        if isinstance(v, SV) and v.kind.tag == "list" and z3.is_int_value(z3.simplify(v.tree[0])):
+            n = z3.simplify(v.tree[0]).as_long()
+            ek = v.kind.args[0]
+            self.assumptions_used.add("A-attrlist: list literals stored as attribute values are modelled as tuples "
+                                      "(their identity/mutability is not tracked)")
+            return SV(TUP(*([ek] * n)), tuple(z3.simplify(tselect(v.tree[1], z3.IntVal(i))) if not isinstance(v.tree[1], tuple)
+                                                else tmap(lambda a: z3.simplify(z3.Select(a, z3.IntVal(i))), v.tree[1]) for i in range(n)))
+        return v
 
     def make_dict(self, pairs, kk=None, vk=None):
         ksv = [self.tup_to_sv(k) for k, _ in pairs]
-        vsv = [self.tup_to_sv(v) for _, v in pairs]
+        vsv = [self.list_as_tuple(self.tup_to_sv(v)) for _, v in pairs]
         if kk is None:
             kk = ksv[0].kind
             for x in ksv[1:]:
@@ -848,6 +875,11 @@ class Interp:
             key = "%s.%s" % (base.name, attr)
             if key in self.lib:
                 return self.lib[key]
+            if mod is not None and (base.name, attr) in mod.class_consts:
+                s2, _ = st.push_frame(None, mod)
+                s2.pure = True
+                v, _ = self.eval1(mod.class_consts[(base.name, attr)], s2)
+                return v
             raise Unsupported("class attribute %s.%s" % (base.name, attr))
         if isinstance(base, SV) and base.kind.tag == "obj":
             cls = base.kind.extra
@@ -915,6 +947,12 @@ class Interp:
         if isinstance(base, dict) and not base:
             # empty literal dict: KeyError
             yield from self.raise_exc(st, "KeyError")
+            return
+        if isinstance(base, dict) and isinstance(idx, str):
+            if idx in base:
+                yield base[idx], st
+            else:
+                yield from self.raise_exc(st, "KeyError")
             return
         if isinstance(base, BoundBuiltin) or isinstance(base, ViewVal):
             h = self.lib.get("getitem:" + getattr(base, "name", getattr(base, "what", "")))
@@ -1239,6 +1277,12 @@ class Interp:
             return z3.Or(*[self.py_eq(item, x) for x in cont])
         if isinstance(cont, dict) and not cont:
             return z3.BoolVal(False)
+        if type(cont).__name__ == "EmptyLit":
+            return z3.BoolVal(False)
+        if isinstance(cont, dict):
+            if isinstance(item, str):
+                return z3.BoolVal(item in cont)
+            return z3.Or(*[self.py_eq(item, k) for k in cont])
         if isinstance(cont, str) and isinstance(item, str):
             return z3.BoolVal(item in cont)
         if isinstance(cont, ViewVal):
@@ -1305,7 +1349,17 @@ class Interp:
                       ast.FloorDiv: "//", ast.Mod: "%", ast.Pow: "**", ast.BitXor: "^"}.get(type(e.op))
                 if op is None:
                     raise Unsupported("binary operator %s" % type(e.op).__name__)
-                yield self.arith(op, a, b, s2), s2
+                s3 = s2
+                if not s2.pure and op in ("+", "-", "*", "/"):
+                    conds = [core.is_num(x.tree) for x in (a, b) if isinstance(x, SV) and x.kind.tag == "any"]
+                    other_ok = all((isinstance(x, (int, float)) and not isinstance(x, str)) or
+                                   (isinstance(x, SV) and x.kind.tag in ("int", "real", "bool", "any")) for x in (a, b))
+                    if conds and other_ok:
+                        outs = list(self.partial(s2, z3.And(*conds), "TypeError", None))
+                        if not outs:
+                            continue
+                        s3 = outs[0][1]
+                yield self.arith(op, a, b, s3), s3
 
     def arith(self, op, a, b, st):
         if not isinstance(a, SV) and not isinstance(b, SV):
@@ -1387,6 +1441,10 @@ class Interp:
         ka = a.kind
         if op not in ("|", "&", "-", "^"):
             raise Unsupported("set operator " + op)
+        meta = a.meta if (a.meta and a.meta == b.meta) else None
+        if meta is not None:
+            r = self.set_op(op, SV(a.kind, a.tree, None, a.lits), SV(b.kind, b.tree, None, b.lits))
+            return SV(r.kind, r.tree, None, None, meta)
         if b.lits is not None and op in ("|", "-"):
             t = a.tree
             for kt in b.lits:
